@@ -280,7 +280,7 @@ pub fn run(ctx: &Ctx) -> i32 {
     COUNT_OK.store(!ctx.open_any("agg.special_fields_skipped"), std::sync::atomic::Ordering::Relaxed);
     let excluded: Vec<String> = ctx.findings().iter().filter(|k| k.status == "open" && k.class.starts_with("park:")).map(|k| k.class[5..].to_string()).collect();
     let steps: Vec<u8> = (0..PAUSE_STEPS.len() as u8).filter(|i| !excluded.iter().any(|e| e == PAUSE_STEPS[*i as usize])).collect();
-    let cases = ctx.tier.pick(96, 1500);
+    let cases = ctx.tier.pick(200, 1500);
     let tier = ctx.tier;
     // with several types the flush writes them one after the other: while it is parked inside the second type the
     // first is already readable twice (same open finding as the in-flight window), so the window would be any step
